@@ -76,6 +76,15 @@ def plan(pid, tier, seed):
                                               "unsafe code are runtime facts outside the model (partial)"],
                 "assumptions": ["partial: Lean proves the layout arithmetic the unsafe code relies on; that the code performs exactly "
                                 "those accesses is tied only by the correspondence (alignment/integrity-checking component types, arena invariant on hooked state)"]}
+    SER_TRUST = WORLD_TRUST + ["recording Serializer and token-tree Deserializer of the harness (harness/src/serde_engine.rs)",
+                                "serde_json / bincode byte<->token layers and the components' own Serialize/Deserialize are exercised, not modelled"]
+    if pid == "C14":
+        return {"jobs": world_jobs(["serde"], tier, seed, 200, 30000, also_release=True), "release": True, "trusted_base": SER_TRUST,
+                "assumptions": ["the user context is the one of the crate documentation (numeric component ids, handled-type list H)"]}
+    if pid == "C15":
+        return {"jobs": world_jobs(["serde"], tier, seed + 17, 250, 40000, also_release=True), "release": True, "trusted_base": SER_TRUST,
+                "assumptions": ["mutations keep announced sizes and entity ids small enough to allocate (ids < 5000, counts < 100)",
+                                "bincode inputs are not mutated (a flipped length prefix asks hecs to reserve gigabytes, outside the property's bound)"]}
     if pid == "C18":
         return {"jobs": world_jobs(["tracker"], tier, seed, 300, 40000), "trusted_base": WORLD_TRUST,
                 "assumptions": ["one tracker per world; entities are not moved between worlds while tracked; T: Clone keeps the value"]}
